@@ -3,7 +3,7 @@
 import glob, json, os
 VERIF = os.path.dirname(os.path.dirname(os.path.abspath(__file__)))
 rows = []
-for d in sorted(glob.glob(os.path.join(VERIF, "seeded", "*-[ABCD]"))):
+for d in sorted(glob.glob(os.path.join(VERIF, "seeded", "*-[A-Z]"))):
     mp = os.path.join(d, "meta.json")
     if not os.path.exists(mp): continue
     m = json.load(open(mp))
